@@ -9,8 +9,11 @@
     top list of the same answer must then be the model's at that point).
     [CShut]: a history in which Close and New are steps of their own
     (Model/StatsShutdown.v), with the hourly flush and updates where they ran
-    relative to Close. *)
-From AGH Require Export Base.Run Model.Stats Model.StatsShutdown.
+    relative to Close.
+    [CWork]: a history on a context whose periodic worker is running (Start):
+    operations, changes of the id source, and the worker's passes where the
+    harness saw them take effect (Model/StatsWorker.v, untimed layer). *)
+From AGH Require Export Base.Run Model.Stats Model.StatsShutdown Model.StatsWorker.
 Local Open Scope Z_scope.
 
 Definition mkE (r d c : Z) (ups : list (Z * bool * Z)) (us : Z) : entry :=
@@ -51,7 +54,8 @@ Inductive obs :=
 
 Inductive case :=
   | CHist (id0 ms0 : Z) (en0 : bool) (steps : list (op * obs))
-  | CShut (id0 ms0 : Z) (en0 : bool) (steps : list (xop * obs)).
+  | CShut (id0 ms0 : Z) (en0 : bool) (steps : list (xop * obs))
+  | CWork (id0 ms0 : Z) (en0 : bool) (steps : list (wop * obs)).
 
 Fixpoint sparse_from (i : Z) (l : list Z) : list (Z * Z) :=
   match l with
@@ -132,10 +136,25 @@ Fixpoint xreplay (s : state) (steps : list (xop * obs)) : bool :=
       end
   end.
 
+Definition wpanics (w : wstate) (o : wop) : bool :=
+  match o with WOp o' => panics (w_st w) o' | _ => false end.
+
+Fixpoint wreplay (w : wstate) (steps : list (wop * obs)) : bool :=
+  match steps with
+  | [] => true
+  | (o, ob) :: rest =>
+      let w' := wstep w o in
+      match ob with
+      | ObsSkip => wreplay w' rest
+      | _ => if eqb_obs (observe (wpanics w o) (w_st w')) ob then wreplay w' rest else false
+      end
+  end.
+
 Definition case_ok (c : case) : bool :=
   match c with
   | CHist id0 ms0 en0 steps => replay (init id0 ms0 en0) steps
   | CShut id0 ms0 en0 steps => xreplay (init id0 ms0 en0) steps
+  | CWork id0 ms0 en0 steps => wreplay (winit id0 ms0 en0) steps
   end.
 
 Definition mismatches := Base.Run.mismatches case_ok.
@@ -152,8 +171,15 @@ Fixpoint xtrace (s : state) (steps : list (xop * obs)) : list obs :=
   | (x, _) :: rest => let s' := xstep s x in observe (xpanics s x) s' :: xtrace s' rest
   end.
 
+Fixpoint wtrace (w : wstate) (steps : list (wop * obs)) : list obs :=
+  match steps with
+  | [] => []
+  | (o, _) :: rest => let w' := wstep w o in observe (wpanics w o) (w_st w') :: wtrace w' rest
+  end.
+
 Definition explain (c : case) : list obs :=
   match c with
   | CHist id0 ms0 en0 steps => trace (init id0 ms0 en0) steps
   | CShut id0 ms0 en0 steps => xtrace (init id0 ms0 en0) steps
+  | CWork id0 ms0 en0 steps => wtrace (winit id0 ms0 en0) steps
   end.
